@@ -175,14 +175,19 @@ def forallElim (s : Term) (th : Thm) : Except RErr Thm :=
   | some _ => .error (.escape .attr)
   | none => .error .invalid
 
-/-- `check_thm_type()`: every hypothesis and the conclusion has checked type `bool`, and (since
-the fix) uses the logical constants `equals`/`implies`/`all` at instances of their declared types
-only — the rules treat any constant of that name as the logical one. -/
+/-- the typing half of `check_thm_type()`: every hypothesis and the conclusion has checked type
+`bool` (this was all of `check_thm_type` before the fix; C11 speaks about this half) -/
 def checkThmType (th : Thm) : Bool :=
   (th.hyps ++ [th.prop]).all fun t =>
-    (match Term.checkedGetType [] t with
-     | .ok T => T == Ty.bool
-     | .error _ => false) && Holpy.sigOK t
+    match Term.checkedGetType [] t with
+    | .ok T => T == Ty.bool
+    | .error _ => false
+
+/-- `check_thm_type()` since the fix: additionally the logical constants `equals`/`implies`/`all`
+occur at instances of their declared types only — the rules treat any constant of that name as the
+logical one.  This is what `_check_proof_item` applies to every sequent it keeps. -/
+def checkThmTypeSig (th : Thm) : Bool :=
+  checkThmType th && Holpy.Thm.sigOK th
 
 /-- `can_prove(target)`. -/
 def canProve (self target : Thm) : Bool :=
@@ -230,7 +235,7 @@ def applyRule (rule : String) (arg : Arg) (prems : List Thm) : Except RErr Thm :
 /-- One checker step on a primitive rule: apply, then `check_thm_type`. -/
 def checkStep (rule : String) (arg : Arg) (prems : List Thm) : Except RErr Thm := do
   let th ← applyRule rule arg prems
-  if Thm.checkThmType th then .ok th else .error .typing
+  if Thm.checkThmTypeSig th then .ok th else .error .typing
 
 /-- A flat proof script: each step cites earlier steps by position. -/
 structure Step where
@@ -302,9 +307,9 @@ the computed sequent must `can_prove` it (same conclusion, hypotheses a subset) 
 is kept.  What is kept goes through `check_thm_type`. -/
 def finishStep (res : Thm) (stated : Option Thm) : Except RErr Thm :=
   match stated with
-  | none => if Thm.checkThmType res then .ok res else .error .typing
+  | none => if Thm.checkThmTypeSig res then .ok res else .error .typing
   | some st =>
-    if Thm.canProve res st then (if Thm.checkThmType st then .ok st else .error .typing)
+    if Thm.canProve res st then (if Thm.checkThmTypeSig st then .ok st else .error .typing)
     else .error .invalid
 
 /-- one checker step with an optional stated sequent -/
